@@ -31,7 +31,7 @@ func TopHasGroups(top string) bool {
 
 var groupOrderRulesLast = []string{"name", "interval", "query_offset", "limit", "labels", "partial_response_strategy", "unknown", "rules"}
 var groupOrderRulesFirst = []string{"rules", "name", "interval", "query_offset", "limit", "labels", "partial_response_strategy", "unknown"}
-var ruleOrder = []string{"record", "alert", "expr", "for", "keep_firing_for", "labels", "annotations", "unknown"}
+var ruleOrder = []string{"record", "alert", "expr", "merge", "for", "keep_firing_for", "labels", "annotations", "unknown"}
 
 var okScalar = map[string]string{
 	"g.name": "g1", "g.interval": "1m", "g.query_offset": "30s", "g.limit": "5",
@@ -170,6 +170,13 @@ func ruleLines(d Doc) []string {
 			st := d.R[k]
 			if k == "labels" || k == "annotations" {
 				body = append(body, mapLines(ind, k, st)...)
+			} else if k == "merge" {
+				switch st {
+				case "inlineEmpty":
+					body = append(body, ind+"<<: {}")
+				case "inlineFor":
+					body = append(body, ind+"<<: {for: 1x}")
+				}
 			} else {
 				body = append(body, scalarLines(ind, k, "r", st, d.Kind)...)
 			}
